@@ -26,6 +26,7 @@ import (
 	"path/filepath"
 	"sort"
 	"strconv"
+	"strings"
 
 	"golang.org/x/tools/go/ssa"
 )
@@ -282,6 +283,61 @@ func (p *Prog) clampArgument(ia *ssa.IndexAddr) (string, bool) {
 	if !step || lo == nil {
 		return "the index does not advance by exactly one", false
 	}
+	// the upper bound of the loop guard idx <= hi (true edge) that dominates the access
+	var hi ssa.Value
+	for _, f := range factsAt(ia.Block()) {
+		bo, ok := f.Cond.(*ssa.BinOp)
+		if !ok {
+			continue
+		}
+		if bo.X == ssa.Value(idx) && ((bo.Op == token.LEQ && f.Truth) || (bo.Op == token.GTR && !f.Truth)) {
+			hi = bo.Y
+		}
+	}
+	if hi == nil {
+		return "the access is not guarded by index ≤ upper bound", false
+	}
+	return p.boundsFrom(lo, hi, ia.X, ia.Block(), 0)
+}
+
+// boundsFrom: lo and hi are the two bounds a module function returned for
+// len(slice), seen at block at on the branch where that call succeeded — or
+// they and the slice are parameters of an unexported helper every call site
+// of which hands it such a triple (the loop moved into `execRange(…, array,
+// from, to, …)`).
+func (p *Prog) boundsFrom(lo, hi, slice ssa.Value, at *ssa.BasicBlock, depth int) (string, bool) {
+	if loP, ok := lo.(*ssa.Parameter); ok && depth < 2 {
+		hiP, ok1 := hi.(*ssa.Parameter)
+		slP, ok2 := slice.(*ssa.Parameter)
+		fn := loP.Parent()
+		if !ok1 || !ok2 || hiP.Parent() != fn || slP.Parent() != fn {
+			return "the bounds and the indexed slice are not all parameters of the helper", false
+		}
+		if fn.Object() == nil || fn.Object().Exported() {
+			return "the bounds are parameters of an exported function", false
+		}
+		nd := p.CG.Nodes[fn]
+		if nd == nil || len(nd.In) == 0 {
+			return "the helper holding the loop is never called", false
+		}
+		why := ""
+		for _, e := range nd.In {
+			c, ok := e.Site.(*ssa.Call)
+			if !ok || c.Call.StaticCallee() != fn || c.Block() == nil {
+				return "the helper holding the loop is called other than by a plain call", false
+			}
+			li, hiI, si := paramIndex(loP), paramIndex(hiP), paramIndex(slP)
+			if li >= len(c.Call.Args) || hiI >= len(c.Call.Args) || si >= len(c.Call.Args) {
+				return "argument positions", false
+			}
+			w, ok := p.boundsFrom(c.Call.Args[li], c.Call.Args[hiI], c.Call.Args[si], c.Block(), depth+1)
+			if !ok {
+				return "at the call in " + fnName(e.Caller.Func) + ": " + w, false
+			}
+			why = w
+		}
+		return why + " (handed to " + fn.Name() + " at each of its call sites)", true
+	}
 	loX, ok := lo.(*ssa.Extract)
 	if !ok || loX.Index != 0 {
 		return "the initial index is not the first result of a bounds call", false
@@ -294,21 +350,10 @@ func (p *Prog) clampArgument(ia *ssa.IndexAddr) (string, bool) {
 	if hiX == nil || errX == nil {
 		return "the bounds call's upper bound or error is unused", false
 	}
-	// loop guard idx <= hi (true edge) dominates the access
-	guard := false
-	for _, f := range factsAt(ia.Block()) {
-		bo, ok := f.Cond.(*ssa.BinOp)
-		if !ok {
-			continue
-		}
-		if bo.X == ssa.Value(idx) && bo.Y == hiX && ((bo.Op == token.LEQ && f.Truth) || (bo.Op == token.GTR && !f.Truth)) {
-			guard = true
-		}
-	}
-	if !guard {
+	if hi != hiX {
 		return "the access is not guarded by index ≤ upper bound", false
 	}
-	if isNil, _ := nilFact(factsAt(ia.Block()), errX); !isNil {
+	if isNil, _ := nilFact(factsAt(at), errX); !isNil {
 		return "the access is not on the branch where the bounds call succeeded", false
 	}
 	// the size handed to the bounds call is len(indexed slice)
@@ -319,13 +364,9 @@ func (p *Prog) clampArgument(ia *ssa.IndexAddr) (string, bool) {
 		if !ok {
 			continue
 		}
-		if bi, ok := lc.Call.Value.(*ssa.Builtin); ok && bi.Name() == "len" && lc.Call.Args[0] == ia.X {
-			off := 0
-			if f.Signature.Recv() != nil {
-				off = 0 // Args include the receiver for static method calls, as do Params
-			}
-			if i+off < len(f.Params) {
-				sizeParam = f.Params[i+off]
+		if bi, ok := lc.Call.Value.(*ssa.Builtin); ok && bi.Name() == "len" && lc.Call.Args[0] == slice {
+			if i < len(f.Params) {
+				sizeParam = f.Params[i]
 			}
 		}
 	}
@@ -336,6 +377,46 @@ func (p *Prog) clampArgument(ia *ssa.IndexAddr) (string, bool) {
 		return fnName(f) + " can return unclamped bounds: " + probs[0], false
 	}
 	return fmt.Sprintf("loop over [lo, hi] returned by %s(…, len(s)); every successful return has lo ≥ 0 and hi ≤ %s-1", f.Name(), sizeParam.Name()), true
+}
+
+// clampedSliceArgument decides s[lo : hi+1] where (lo, hi) are the bounds a
+// module function returned for len(s), on the branch where that call
+// succeeded and lo ≤ hi is known: 0 ≤ lo ≤ hi+1 ≤ len(s).
+func (p *Prog) clampedSliceArgument(sl *ssa.Slice) (string, bool) {
+	if sl.Low == nil || sl.High == nil || sl.Max != nil || sl.Block() == nil {
+		return "", false
+	}
+	hb, ok := stripConv(sl.High).(*ssa.BinOp)
+	if !ok || hb.Op != token.ADD {
+		return "", false
+	}
+	if k, isC := constInt(hb.Y); !isC || k != 1 {
+		return "", false
+	}
+	lo, hi := stripConv(sl.Low), stripConv(hb.X)
+	// lo ≤ hi on the way here
+	ordered := false
+	for _, f := range factsAt(sl.Block()) {
+		bo, ok := f.Cond.(*ssa.BinOp)
+		if !ok {
+			continue
+		}
+		x, y := stripConv(bo.X), stripConv(bo.Y)
+		switch {
+		case x == lo && y == hi && ((bo.Op == token.LEQ && f.Truth) || (bo.Op == token.GTR && !f.Truth)):
+			ordered = true
+		case x == hi && y == lo && ((bo.Op == token.GEQ && f.Truth) || (bo.Op == token.LSS && !f.Truth)):
+			ordered = true
+		}
+	}
+	if !ordered {
+		return "the slice bounds are not known to be ordered (lo ≤ hi) where the slice is taken", false
+	}
+	why, good := p.boundsFrom(lo, hi, sl.X, sl.Block(), 0)
+	if !good {
+		return why, false
+	}
+	return "s[lo:hi+1] with lo ≤ hi on this branch; " + why, true
 }
 
 // stringerArgument decides x.String()[k:] for a stringer-generated method.
@@ -564,6 +645,21 @@ var ruleBCEExec = &Rule{
 				out.undecided(fmt.Sprintf("unproven %s at %s:%d:%d", f.Kind, filepath.Base(f.File), f.Line, f.Col), where, "", "cannot map the compiler's position to an SSA instruction")
 				continue
 			}
+			// several operations at one position (`for … range s[lo:hi]`: the
+			// slice expression and the element load of the loop): the one of
+			// the kind the compiler names
+			if len(ss) > 1 {
+				var same []site
+				for _, s := range ss {
+					_, isSlice := s.ins.(*ssa.Slice)
+					if isSlice == strings.Contains(f.Kind, "Slice") {
+						same = append(same, s)
+					}
+				}
+				if len(same) > 0 {
+					ss = same
+				}
+			}
 			for _, s := range ss {
 				name := fnName(s.fn)
 				ord[name+f.Kind]++
@@ -587,6 +683,11 @@ var ruleBCEExec = &Rule{
 					}
 				case *ssa.Slice:
 					why, good = p.stringerArgument(x)
+					if !good {
+						if w2, g2 := p.clampedSliceArgument(x); g2 {
+							why, good = w2, true
+						}
+					}
 				}
 				if good {
 					out.ok(key, where, name, why)
